@@ -106,6 +106,20 @@ Section Word.
     idx cis si >>= fun sp =>
     (if ei <? len cis then idx cis ei >>= fun ep => Ok (fst ep) else Ok (blen line)) >>= fun eb =>
     of_opt (slice line (fst sp) eb) >>= fun w => Ok (Some w).
+
+  (** seeded change S87: the word's first byte taken as "byte offset of the separator in front
+      of it, plus one" ([rfind(non_word).map_or(0, |pos| pos + 1)]) instead of the first
+      character's own offset *)
+  Definition extract_word_sep_plus_one (line : text) (character : N) : res (option text) :=
+    let cis := char_indices line in
+    if len cis <=? character then Ok None else
+    idx cis character >>= fun pc =>
+    if negb (wordc (snd pc)) then Ok None else
+    word_start (S (length cis)) cis character >>= fun si =>
+    word_end (S (length cis)) cis (character + 1) >>= fun ei =>
+    (if si =? 0 then Ok 0 else usub si 1 >>= fun j => idx cis j >>= fun p => Ok (fst p + 1)) >>= fun sb =>
+    (if ei <? len cis then idx cis ei >>= fun ep => Ok (fst ep) else Ok (blen line)) >>= fun eb =>
+    of_opt (slice line sb eb) >>= fun w => Ok (Some w).
 End Word.
 
 (** ** find_function_name_position(content, line, func_name) -> (start, end) in bytes *)
